@@ -1,4 +1,7 @@
+mod c31b;
+
 fn main() {
-    eprintln!("no sub-commands yet");
-    std::process::exit(2);
+    vf_kit::dispatch! {
+        "c31b" => c31b::C31b,
+    }
 }
